@@ -13,7 +13,7 @@ package input
 
 // C10: the key index (Meta) agrees with the output maps.
 //@ struct Point
-//@ props C10
+//@ props C10 C01
 //@ invariant self.Tags != nil && self.Fields != nil && self.Meta != nil
 //@ invariant forall k string :: dom(self.Meta, k) ==> self.Meta[k] != nil && allocated(self.Meta[k]) && (self.Meta[k].PtFlag == PtField || self.Meta[k].PtFlag == PtTag)
 //@ invariant forall k string :: dom(self.Fields, k) ==> dom(self.Meta, k) && self.Meta[k].PtFlag == PtField
@@ -33,13 +33,13 @@ package input
 //@ modifies nothing
 
 //@ func GetMeta
-//@ props C10 C15
+//@ props C10 C15 C01
 //@ overwrites result
 //@ modifies nothing
 //@ ensures result != nil && fresh(result) && result.DType == dtype && result.PtFlag == ptflag
 
 //@ func PutMeta
-//@ props C10
+//@ props C10 C01
 //@ modifies nothing
 
 //@ extern github.com/GuanceCloud/platypus/pkg/engine/runtime.Conv2String
@@ -55,14 +55,14 @@ package input
 //@ ensures result2 == nil && result0 != nil ==> (dom(pt.Fields, key) && result0 == pt.Fields[key]) || (dom(pt.Tags, key) && typeis(result0, string) && result0.(string) == pt.Tags[key])
 
 //@ func (*Point).Delete
-//@ props C10
+//@ props C10 C01
 //@ modifies mapof(pt.Fields), mapof(pt.Tags), mapof(pt.Meta)
 //@ ensures !dom(pt.Fields, key) && !dom(pt.Tags, key) && !dom(pt.Meta, key)
 //@ ensures forall k string :: k != key ==> dom(pt.Fields, k) == old(dom(pt.Fields, k)) && dom(pt.Tags, k) == old(dom(pt.Tags, k)) && dom(pt.Meta, k) == old(dom(pt.Meta, k))
 //@ ensures forall k string :: k != key ==> pt.Fields[k] == old(pt.Fields[k]) && pt.Tags[k] == old(pt.Tags[k]) && pt.Meta[k] == old(pt.Meta[k])
 
 //@ func (*Point).Set
-//@ props C10
+//@ props C10 C01
 //@ requires runtime.wfVal(value, dtype)
 //@ modifies mapof(pt.Fields), mapof(pt.Tags), mapof(pt.Meta), TFMeta.DType
 //@ ensures forall k string :: k != key ==> dom(pt.Fields, k) == old(dom(pt.Fields, k)) && dom(pt.Tags, k) == old(dom(pt.Tags, k)) && dom(pt.Meta, k) == old(dom(pt.Meta, k))
@@ -70,20 +70,20 @@ package input
 //@ ensures dom(pt.Meta, key)
 
 //@ func (*Point).SetTag
-//@ props C10
+//@ props C10 C01
 //@ modifies mapof(pt.Fields), mapof(pt.Tags), mapof(pt.Meta), TFMeta.DType, TFMeta.PtFlag
 //@ ensures dom(pt.Tags, key) && !dom(pt.Fields, key)
 //@ ensures forall k string :: k != key ==> dom(pt.Fields, k) == old(dom(pt.Fields, k)) && dom(pt.Tags, k) == old(dom(pt.Tags, k)) && dom(pt.Meta, k) == old(dom(pt.Meta, k))
 //@ ensures forall k string :: k != key ==> pt.Fields[k] == old(pt.Fields[k]) && pt.Tags[k] == old(pt.Tags[k]) && pt.Meta[k] == old(pt.Meta[k])
 
 //@ func (*Point).Mv2Tag
-//@ props C10
+//@ props C10 C01
 //@ modifies mapof(pt.Fields), mapof(pt.Tags), mapof(pt.Meta), TFMeta.DType, TFMeta.PtFlag
 //@ ensures !dom(pt.Fields, key)
 //@ ensures forall k string :: k != key ==> dom(pt.Fields, k) == old(dom(pt.Fields, k)) && dom(pt.Tags, k) == old(dom(pt.Tags, k)) && dom(pt.Meta, k) == old(dom(pt.Meta, k))
 
 //@ func (*Point).SetMeasurement
-//@ props C10
+//@ props C10 C01
 //@ modifies pt.Measurement
 
 //@ func (*Point).KeyTime2Time
@@ -93,13 +93,13 @@ package input
 //@ sweep[C10] (*Point).GetMeasurement
 
 //@ func GetPoint
-//@ props C10 C15
+//@ props C10 C15 C01
 //@ modifies nothing
 //@ ensures result != nil
 
 // the state the point is handed back in (what a caller printed must agree with it)
 //@ func PutPoint
-//@ props C10 C15
+//@ props C10 C15 C01
 //@ noinv pt
 //@ observe m string = pt.Measurement
 //@ observe tags map[string]string = pt.Tags
@@ -114,7 +114,7 @@ package input
 //@ | || typeis(v, int) || typeis(v, int8) || typeis(v, int16) || typeis(v, int32) || typeis(v, uint) || typeis(v, uint8) || typeis(v, uint16) || typeis(v, uint32) || typeis(v, uint64) || typeis(v, float32)
 
 //@ func InitPt
-//@ props C10 C15
+//@ props C10 C15 C01
 //@ noinv pt
 // nothing of the pooled point's earlier life survives: every field (whatever fields Point has) is assigned
 //@ overwrites pt
@@ -139,7 +139,7 @@ package input
 //@ invariant forall j, k string :: dom(pt.Meta, j) && dom(pt.Meta, k) && j != k ==> pt.Meta[j] != pt.Meta[k]
 
 //@ func (*Point).Rename
-//@ props C10
+//@ props C10 C01
 //@ modifies mapof(pt.Fields), mapof(pt.Tags), mapof(pt.Meta)
 //@ ensures (to == from || !old(dom(pt.Meta, from))) ==> (forall k string :: dom(pt.Fields, k) == old(dom(pt.Fields, k)) && dom(pt.Tags, k) == old(dom(pt.Tags, k)) && dom(pt.Meta, k) == old(dom(pt.Meta, k)))
 //@ ensures to != from && old(dom(pt.Meta, from)) ==> result == nil && !dom(pt.Meta, from) && !dom(pt.Fields, from) && !dom(pt.Tags, from) && dom(pt.Meta, to) && pt.Meta[to] == old(pt.Meta[from])
